@@ -183,6 +183,8 @@ def run(tier, seed):
                 rep.violation(rid, "lha_reader_extract forwards extract_normal", ex.file, "not found", function=ex.cname, obj="normal")
 
         # ---- R4 CLI -----------------------------------------------------------------------------------
+        # the reader of the invocation: a reader parameter, or the reader of a filter parameter
+        READER = ("or", ("param", 0), ("load", ("field", "LHAFilter", "reader", ("param", 0))))
         rid = rep.rule("R4a", "test_archived_file_crc returns lha_reader_check's verdict (dry run excepted)", 2)
         ta = rep.need(rid, mod.fn("test_archived_file_crc"), "function test_archived_file_crc")
         if ta:
@@ -190,11 +192,11 @@ def run(tier, seed):
             found = False
             for s, fs in returned_sources(ctx, ta):
                 if is_const(s):
-                    f, _ = M.find_fact(("ne", ("load", ("field", "LHAOptions", "dry_run", ("param", 2))), 0), fs)
+                    f, _ = M.find_fact(("ne", ("load", ("field", "LHAOptions", "dry_run", ANY)), 0), fs)
                     rep.check(rid, const_val(s) == 0 or f is not None, "test_archived_file_crc: constant status %s" % const_val(s), ta.file,
                               "constant success is admissible only in dry-run mode", function=ta.cname, obj="const")
                 else:
-                    ok = M.match(("call", "lha_reader_check", [("param", 0), ANY, ANY]), s, {}) is not None
+                    ok = M.match(("call", "lha_reader_check", [READER, ANY, ANY]), s, {}) is not None
                     found = found or ok
                     rep.check(rid, ok, "test_archived_file_crc: status is lha_reader_check(reader, ...)", ta.file, describe(ta, s), function=ta.cname, obj="verdict")
             if not found:
@@ -209,12 +211,12 @@ def run(tier, seed):
                     if const_val(s) == 0:
                         rep.ok(rid, "extract_archived_file: constant failure", None, ea.file)
                         continue
-                    f1, _ = M.find_fact(("eq", ("call", "confirm_file_overwrite", [ANY, ("param", 2)]), 0), fs)
-                    f2, _ = M.find_fact(("eq", ("load", ("field", "LHAOptions", "use_path", ("param", 2))), 0), fs)
+                    f1, _ = M.find_fact(("eq", ("call", "confirm_file_overwrite", [ANY, ANY]), 0), fs)
+                    f2, _ = M.find_fact(("eq", ("load", ("field", "LHAOptions", "use_path", ANY)), 0), fs)
                     rep.check(rid, f1 is not None or f2 is not None, "extract_archived_file: constant success", ea.file,
                               "constant success without 'overwrite declined' or 'paths disabled'", function=ea.cname, obj="const")
                 else:
-                    ok = M.match(("call", "lha_reader_extract", [("param", 0), ANY, ANY, ANY]), s, {}) is not None
+                    ok = M.match(("call", "lha_reader_extract", [READER, ANY, ANY, ANY]), s, {}) is not None
                     found = found or ok
                     rep.check(rid, ok, "extract_archived_file: status is lha_reader_extract(reader, ...)", ea.file, describe(ea, s), function=ea.cname, obj="verdict")
             if not found:
